@@ -36,7 +36,7 @@ func main() {
 	case "setadmin":
 		err = d.SetAdmin(user, admin)
 	case "remove":
-		d.RemoveUser(user)
+		err = d.RemoveUser(user)
 	case "init":
 		err = d.Init(user, pw)
 	case "auth":
